@@ -324,7 +324,23 @@ class Gen:
         if self.intcblock is not None:
             ib = "intcblock " + " ".join(str(x) for x in self.intcblock)
             lines = [ib if l == "__INTCBLOCK__" else l for l in lines]
-        return "\n".join(lines) + "\n"
+        # shapes that arise from adjacency: a label right after a callsub (return point with other predecessors),
+        # a callsub as the very last instruction, a branch to the next line
+        out = []
+        for k, l in enumerate(lines):
+            out.append(l)
+            nxt = lines[k + 1] if k + 1 < len(lines) else None
+            if l.startswith("callsub ") and (nxt is None or nxt.endswith(":")):
+                if self.cfg.shapes:
+                    self.tags.add("callsubLast" if nxt is None else "retPointJoin")
+                else:
+                    out += ["int 7", "pop"]
+            if l.split(" ")[0] in ("bz", "bnz") and nxt is not None and nxt == l.split(" ")[1] + ":":
+                if self.cfg.shapes:
+                    self.tags.add("branchToNext")
+                else:
+                    out += ["int 8", "pop"]
+        return "\n".join(out) + "\n"
 
 
 def fragment(seed, index, **cfgkw):
